@@ -314,7 +314,7 @@ def run(ctx):
         ncorp = len(json.load(open(cj)))
         step = max(1, (ncorp + 15) // 16)
         ctx.map(fuzz_replay_shard, [(ctx.here, lo, lo + step) for lo in range(0, ncorp, step)])
-    ctx.map(fuzz_shard, campaign_args(ctx, 4, 20, 8000, 300000, 7))
+    ctx.map(fuzz_shard, campaign_args(ctx, 4, 20, 8000, 80000, 7))
     ctx.exhaustive = True
     ctx.extra["exhaustive_bounds"] = "2-operator expression trees; derivation sequences <= %d x 11 contexts; statement trees depth <= %d; switch bodies <= 3 items" % (nd, sd)
 
